@@ -72,6 +72,74 @@ def crt (a1 m1 a2 m2 : Int) : Except Panic (Option Int) :=
         let x' := ((x.tmod m2') + m2').tmod m2'
         .ok (some (m1 * x' + a1))
 
+/-! ### Machine instantiations of `egcd` and `crt`
+
+The same recursion with every operation that can leave the type passed through `checked t`
+(quotients — `MIN / -1` —, products, differences, sums, the negation in `crt`).  The driver executes these at
+`i64`; `egcdT_eq_egcd` / `crtT_eq_crt` (`Props/C11.lean`) show that inside the property's `2^20` box they
+never report an overflow and return exactly what the unbounded functions return. -/
+
+/-- `egcd::<T>` with checked arithmetic. -/
+def egcdT (t : IntTy) (a b c : Int) : Except Panic (Option (Int × Int)) :=
+  if _h : a = 0 then
+    if b = 0 then .error .divzero            -- `c % b` with `b == 0`
+    else if c.tmod b ≠ 0 then .ok none
+    else
+      match checked t (c.tdiv b) with         -- `c / &b`
+      | .error e => .error e
+      | .ok q => .ok (some (0, q))
+  else
+    match egcdT t (b.tmod a) a c with
+    | .error e => .error e
+    | .ok none => .ok none
+    | .ok (some (y0, x0)) =>
+      match checked t (b.tdiv a) with         -- `b / &a`
+      | .error e => .error e
+      | .ok q =>
+      match checked t (q * y0) with           -- `(b / &a) * &y0`
+      | .error e => .error e
+      | .ok p =>
+      match checked t (x0 - p) with           -- `x0 - &(…)`
+      | .error e => .error e
+      | .ok x => .ok (some (x, y0))
+termination_by a.natAbs
+decreasing_by
+  rw [Int.natAbs_tmod]
+  exact Nat.mod_lt _ (by omega)
+
+/-- `crt::<T>` with checked arithmetic (argument evaluation order of the Rust source). -/
+def crtT (t : IntTy) (a1 m1 a2 m2 : Int) : Except Panic (Option Int) :=
+  match gcdT t m1 m2 with
+  | .error e => .error e
+  | .ok g =>
+  match checked t (-m2) with                  -- `-m2.clone()`
+  | .error e => .error e
+  | .ok nm2 =>
+  match checked t (a2 - a1) with              -- `a2 - &a1`
+  | .error e => .error e
+  | .ok d =>
+  match egcdT t m1 nm2 d with
+  | .error e => .error e
+  | .ok none => .ok none
+  | .ok (some (x, _)) =>
+    if g = 0 then .error .divzero             -- `m2 / &g`
+    else
+      match checked t (m2.tdiv g) with
+      | .error e => .error e
+      | .ok m2' =>
+      if m2' = 0 then .error .divzero         -- `x % &m2`
+      else
+        match checked t (x.tmod m2' + m2') with
+        | .error e => .error e
+        | .ok s =>
+        let x' := s.tmod m2'
+        match checked t (m1 * x') with
+        | .error e => .error e
+        | .ok p =>
+        match checked t (p + a1) with
+        | .error e => .error e
+        | .ok r => .ok (some r)
+
 /-! ### Executable specifications (what the user relies on) -/
 
 /-- gcd by definition: the largest common divisor found by downward search (0 for (0,0)). -/
